@@ -300,7 +300,13 @@ class DevA(Base):
             second=properties.NumberVector("V2", elements=dict(a=properties.Number("A"))),
         ),
     )
-    g2 = properties.Group("GRP2", vectors=dict(third=properties.SwitchVector("V3", elements=dict(c=properties.Switch("C"), d=properties.Switch("D")))))
+    g2 = properties.Group(
+        "GRP2",
+        vectors=dict(
+            third=properties.SwitchVector("V3", elements=dict(c=properties.Switch("C"), d=properties.Switch("D"))),
+            hidden=properties.TextVector("V4", enabled=False, elements=dict(a=properties.Text("A"))),
+        ),
+    )
 '''
 
 
@@ -316,9 +322,9 @@ def rule_enum(ctx):
     f = drv.find_method("message_from_client")
     init = drv.methods["__init__"]
     gp = p.cls("indi.message.get_properties.GetProperties")
-    declared = {"V0": ["A", "B", "C"], "V1": ["A", "B"], "V2": ["A"], "V3": ["C", "D"]}
+    declared = {"V0": ["A", "B", "C"], "V1": ["A", "B"], "V2": ["A"], "V3": ["C", "D"], "V4": ["A"]}  # V4 is declared disabled: it still exists (answers with delProperty, can be enabled later)
     bad = False
-    for name, expect in ((None, sorted(declared)), ("V0", ["V0"]), ("V3", ["V3"]), ("V2", ["V2"])):
+    for name, expect in ((None, sorted(declared)), ("V0", ["V0"]), ("V3", ["V3"]), ("V2", ["V2"]), ("V4", ["V4"])):
         def run(it: Interp):
             d = build_drivers(it, p, names=(("DevA", "DEVA"),), src=_ENUM_SRC, extra_classes=("Base",))["DEVA"]
             it.objs = {o.label: o for o in _reachable_objs(d)}
